@@ -174,7 +174,8 @@ def build_rep(repo, spec_dir, canary=False):
     b.emit('impl Grapheme {')
     b.verified_fn('grapheme.rs', 'from', within=r'^impl Grapheme \{', props=['C07'], fname='Grapheme::from',
                   clauses=[Clause('grapheme_from.no_quantifier', 'r.min == 1 && r.max == 1 && r.repetitions@.len() == 0', ['C13']),
-                           Clause('grapheme_from.value', 'r.chars@.len() == 1 && r.chars@[0]@ == s@', ['C13', 'C01'])],
+                           Clause('grapheme_from.value', 'r.chars@.len() == 1 && r.chars@[0]@ == s@', ['C13', 'C01']),
+                           Clause('grapheme_from.flags', 'r.is_capturing_group_enabled == is_capturing_group_enabled && r.is_output_colorized == is_output_colorized && r.is_verbose_mode_enabled == is_verbose_mode_enabled', ['C06'])],
                   extra_rules=[('R4', r'\bs\.to_string\(\)', 'vx_str_to_string(s)', '&str -> String copy')])
     b.emit('}')
     gcf, _, _ = X.fn(rx, 'grapheme_clusters')
@@ -429,13 +430,16 @@ impl<'x, T: VxShow> VxShow for &'x T { open spec fn shown(&self) -> Seq<char> { 
         assert forall|c: char| #[trigger] f(c) == round_map(p)(c) by { if c == p { assert("\\\\"@ + char_to_escape@ =~= seq!['\\\\', c]); } }
         lemma_fm_ext(character0@, f, round_map(p)); }''')
     # the control-character chain
-    cm = re.search(r'character = character\s*\.replace\(\'\\n\'.*?;', ef, re.S)
+    cm = re.search(r'character = character\s*\.replace\(\'.*?;', ef, re.S)
     if not cm: raise X.LostAnchor('grapheme.rs::escape_regexp_symbols control-character chain')
     b.slice_fn('escape_controls', 'pub fn escape_controls(character0: String) -> (character: String)', '    let mut character = character0;\n    ' + cm.group(0) + '\n    character',
                'grapheme.rs::escape_regexp_symbols statement `character = character.replace(\'\\n\', ..)...`', props=['C07'], pre=pre,
                clauses=[Clause('escaper.controls_single', "character0@.len() == 1 ==> character@ == (if character0@[0] == '\\n' { \"\\\\n\"@ } else if character0@[0] == '\\r' { \"\\\\r\"@ } else if character0@[0] == '\\t' { \"\\\\t\"@ } else { character0@ })", ['C01', 'C07'])],
                epilogue_before_tail='    proof { reveal_with_fuel(fm, 6); reveal_strlit("\\\\n"); reveal_strlit("\\\\r"); reveal_strlit("\\\\t"); if character0@.len() == 1 { assert(character0@ =~= seq![character0@[0]]); } }')
+    from units import escapertext
+    escapertext.emit(b, spec_dir, ef, m, items, pre)
     b.emit('} // verus!\nfn main() {}')
-    b.trusted += ['replace model (String::replace with a one-character &str pattern replaces every occurrence); that the 14 rounds and the control chain do not interfere (no replacement text contains a later pattern except the backslash, which is not in the list) is argued in DESIGN.md, not proved',
-                  'format!("{}{}", "\\\\", x) concatenates (formatting model)']
+    b.trusted += ['replace model (String::replace with a one-character &str / char pattern replaces every occurrence, left to right)',
+                  'format!("{}{}", "\\\\", x) concatenates (formatting model)',
+                  'slice escape_text: the first and the last statement of the loop body (`let mut character = characters[i].clone();`, `characters[i] = character;`) become the parameter and the result of the slice; that the outer loop visits every element of `chars` is not decided']
     return b
